@@ -24,7 +24,7 @@ for t in tg:
 	q, i, ov = (t + (None, None))[:3]
 	if q.endswith(qual) and (inst is None or i == inst):
 		if len(t) > 3 and t[3] is not None:
-			eng.registry = Registry(); t[3](eng.registry); eng.specns = dict(mod.SPECNS); eng.specns.update(getattr(t[3], 'specns', {}))
+			eng.registry = Registry(); t[3](eng.registry); eng.specns = dict(mod.SPECNS); eng.specns.update(getattr(t[3], 'specns', {})); eng.lib = dict(mod.LIB); eng.lib.update(getattr(t[3], 'lib', {}))
 		t0 = time.time()
 		eng.verify_function(q, i, ov)
 		print('generated', len(eng.obligations), 'in', round(time.time() - t0, 1), 's; paths', eng.paths)
@@ -53,3 +53,6 @@ if os.environ.get('MODEL'):
 					print('  ', d.name(), '=', m[d])
 			print('GOAL', ob.goal)
 			break
+if os.environ.get('LIST'):
+	for n, r in res.items():
+		print('   ', r.verdict, n, r.backend, round(r.seconds, 2))
